@@ -26,6 +26,10 @@ CONSTANTS
   AgeAtDecision = TRUE
   LoadAtomic = TRUE
   PurgeFences = TRUE
+  SaveUnderLock = TRUE
+  PurgeHoldsShard = TRUE
+  AbsentPurge = FALSE
+  Reapplies = FALSE
   Ghost = FALSE
 INVARIANTS
   TypeOK D_FetchingHasOwner D_OneOwner D_WaitersOnlyWhileFetching D_WaiterAccounted
